@@ -147,7 +147,46 @@ func readLines(path string) ([][]byte, error) {
 }
 
 // validate executes one batch of programs and validates the trace with TLC.
-func validate(env *run.Env, bin string, traceMod string, idx int, progs []gen.Program, heapMB int, others ...otherBuild) *batchResult {
+// abstractEvent renders an event without its word-size dependent parts: every observed mantissa becomes its
+// digit string (dw digits per word, least significant word first in the log) and the digests are dropped.
+func abstractEvent(line []byte, dw int) string {
+	var ev map[string]any
+	if json.Unmarshal(line, &ev) != nil {
+		return string(line)
+	}
+	delete(ev, "dg")
+	objs := []any{}
+	if post, ok := ev["post"].(map[string]any); ok {
+		for _, o := range post {
+			objs = append(objs, o)
+		}
+	}
+	if ret, ok := ev["ret"].(map[string]any); ok && ret["words"] != nil { // BitsExp
+		objs = append(objs, ret)
+	}
+	{
+		for _, o := range objs {
+			om, ok := o.(map[string]any)
+			if !ok {
+				continue
+			}
+			ws, _ := om["words"].([]any)
+			var sb strings.Builder
+			for i := len(ws) - 1; i >= 0; i-- {
+				w, _ := ws[i].(string)
+				if i < len(ws)-1 && len(w) < dw {
+					sb.WriteString(strings.Repeat("0", dw-len(w)))
+				}
+				sb.WriteString(w)
+			}
+			om["words"] = strings.TrimRight(sb.String(), "0")
+		}
+	}
+	out, _ := json.Marshal(ev)
+	return string(out)
+}
+
+func validate(env *run.Env, bin string, traceMod string, idx int, progs []gen.Program, heapMB int, homeProperty string, others ...otherBuild) *batchResult {
 	r := &batchResult{idx: idx, progs: progs}
 	pf := filepath.Join(env.Scratch, fmt.Sprintf("b%d.prog.ndjson", idx))
 	ef := filepath.Join(env.Scratch, fmt.Sprintf("b%d.ev.ndjson", idx))
@@ -193,9 +232,19 @@ func validate(env *run.Env, bin string, traceMod string, idx int, progs []gen.Pr
 			r.err = err
 			return r
 		}
+		// another word size: the logs are compared after abstraction (mantissa words -> digit string, no digests)
+		abs := strings.HasPrefix(ob.tag, "arch=")
 		for i := 0; i < len(lines) || i < len(ol); i++ {
-			if i >= len(lines) || i >= len(ol) || string(lines[i]) != string(ol[i]) {
-				buildDiffs = append(buildDiffs, badEntry{L: min(i, len(lines)-1) + 1, PID: "C07", Kind: "build-diff:" + ob.tag})
+			same := i < len(lines) && i < len(ol) && string(lines[i]) == string(ol[i])
+			if !same && abs && i < len(lines) && i < len(ol) {
+				same = abstractEvent(lines[i], 19) == abstractEvent(ol[i], 9)
+			}
+			if !same {
+				pid := "C07"
+				if abs {
+					pid = homeProperty
+				}
+				buildDiffs = append(buildDiffs, badEntry{L: min(i, len(lines)-1) + 1, PID: pid, Kind: "build-diff:" + ob.tag})
 				break
 			}
 		}
@@ -426,6 +475,12 @@ func reproduce(env *run.Env, bin string, c *check, br *batchResult, b badEntry, 
 	return path, same, nil
 }
 
+// word32: checks whose programs are free of word-level arguments are also executed by a GOARCH=386 build
+// (32-bit words, base 10^9: different kernels, tables and word counts); its abstracted event log must
+// equal that of the 64-bit build, which TLC validates against the specification.
+var word32 = map[string]bool{"C01": true, "C02": true, "C03": true, "C04": true, "C05": true, "C09": true, "C10": true,
+	"C11": true, "C12": true, "C13": true, "C14": true, "C15": true, "C16": true, "C19": true}
+
 func runCheck(env *run.Env, c *check) int {
 	start := time.Now()
 	thor := env.Tier == "thorough"
@@ -439,7 +494,11 @@ func runCheck(env *run.Env, c *check) int {
 	}
 	logf("built executor from %s", env.Repo)
 	var others []otherBuild
-	for _, tag := range c.builds {
+	builds := c.builds
+	if word32[c.id] {
+		builds = append(append([]string{}, builds...), "arch=386")
+	}
+	for _, tag := range builds {
 		if tag == "" {
 			continue
 		}
@@ -569,7 +628,7 @@ func runCheck(env *run.Env, c *check) int {
 			defer wg.Done()
 			sem <- struct{}{}
 			defer func() { <-sem }()
-			results[i] = validate(env, bin, c.trace, i, batches[i], 3000, others...)
+			results[i] = validate(env, bin, c.trace, i, batches[i], 3000, c.id, others...)
 		}(i)
 	}
 	wg.Wait()
@@ -636,7 +695,7 @@ func runCheck(env *run.Env, c *check) int {
 					tries = 5
 				}
 				for try := 0; try < tries && !same; try++ {
-					rr := validate(env, bin, c.trace, 1000+nrep*10+try, []gen.Program{r.progs[r.progOf[b.L-1]]}, 3000)
+					rr := validate(env, bin, c.trace, 1000+nrep*10+try, []gen.Program{r.progs[r.progOf[b.L-1]]}, 3000, c.id)
 					if rr.err != nil {
 						die("reproduce: %v", rr.err)
 					}
@@ -763,7 +822,16 @@ func replay(env *run.Env, path string) int {
 	if err != nil {
 		die("%v", err)
 	}
-	r := validate(env, bin, rf.Trace, 0, []gen.Program{rf.Program}, 3000)
+	var others []otherBuild
+	if strings.HasPrefix(rf.Kind, "build-diff:") { // the mismatch is between two builds: run both
+		tag := strings.TrimPrefix(rf.Kind, "build-diff:")
+		ob, err := env.BuildExec("vexec_other", tag, false)
+		if err != nil {
+			die("%v", err)
+		}
+		others = append(others, otherBuild{tag, ob})
+	}
+	r := validate(env, bin, rf.Trace, 0, []gen.Program{rf.Program}, 3000, rf.Property, others...)
 	if r.err != nil {
 		die("%v", r.err)
 	}
@@ -794,7 +862,7 @@ func selftest(env *run.Env) int {
 	g := gen.New(env.Seed, false)
 	progs := gen.Round(g, 60)
 	progs = append(progs, gen.Cmp(g, 10)...)
-	base := validate(env, bin, "Trace_Core", 0, progs, 3000)
+	base := validate(env, bin, "Trace_Core", 0, progs, 3000, "")
 	if base.err != nil {
 		die("selftest: %v", base.err)
 	}
